@@ -89,6 +89,7 @@ package labels
 //@ func Block.MergeLabels
 //@   prop C10
 //@   safety_off
+//@   calls_havoc
 //@   requires b != nil && !has(op.Merged, op.Target) && len(b.Labels) < 1000000000
 //@   requires forall k int :: {b.SBIndices[k]} 0 <= k && k < len(b.SBIndices) ==> int(b.SBIndices[k]) < len(b.Labels)
 //@   modifies *
@@ -116,6 +117,7 @@ package labels
 //@ func Block.ReplaceLabels
 //@   prop C10
 //@   safety_off
+//@   calls_havoc
 //@   requires b != nil
 //@   modifies *
 //@   assume at "for i, label := range replace.Labels {": replace != nil && replace != b && len(replace.Labels) == len(b.Labels) && len(replace.SBIndices) == len(b.SBIndices) && replace.Labels.arr != b.Labels.arr
@@ -129,6 +131,7 @@ package labels
 //@ func Block.ReplaceLabel
 //@   prop C10
 //@   safety_off
+//@   calls_havoc
 //@   requires b != nil
 //@   modifies *
 //@   assume at "for i, label := range replace.Labels {": replace != nil && replace != b && len(replace.Labels) == len(b.Labels) && len(replace.SBIndices) == len(b.SBIndices) && replace.Labels.arr != b.Labels.arr
